@@ -109,3 +109,17 @@ CHECKS["C07"] = dict(
          "after numeric normalisation.",
     note="One assembly per distinct rendering stands for all byte strings that decode to it; 'alias -- underlying form' renderings agree if either "
          "part agrees; rejected renderings are counted per CPU (low-coverage CPUs are listed in the evidence), never judged.")
+
+CHECKS["C01"] = dict(
+    level="model_checking", design_ref="DESIGN.md 4/C01",
+    technique="exhaustive enumeration of instruction texts from three sources (decoder renderings over the exhausted cells, corpus lines x numeric "
+              "slots x boundary values, MSP430-core / RV32I cross products); each is assembled, walked by the decoder and re-assembled; reference "
+              "encoders written from the architecture manuals are the oracle for MSP430 and RV32I",
+    text="Every accepted instruction text (about 2.3 million in the quick tier, 14 million in the thorough tier, over all 68 CPUs) is assembled by the "
+         "real assembler at the stated addresses; walking the real decoder over the emitted bytes must consume exactly those bytes, and the decoded "
+         "text, if accepted again, must assemble to the same bytes.  The MSP430 core (12 two-operand, 6 one-operand instructions x .b/.w x all "
+         "source and destination modes incl. constant generator, symbolic and absolute; jumps at the field boundaries) and RV32I (40 instructions, "
+         "every register in every slot, immediates and branch distances at the field boundaries, ABI and x names) are additionally compared byte "
+         "for byte with reference encoders.",
+    note="Trusts engine/ref/msp430enc.py and engine/ref/rv32i.py (only literal operands are posed; unsigned spellings of a field are not expected "
+         "to be rejected); statements emitting alignment padding or non-contiguous bytes are not judged.")
